@@ -33,6 +33,7 @@ Premises (DESIGN §6), all visible as hypotheses:
 import DeapModel.Lemmas.C18Aux
 import DeapModel.Lemmas.C18Text
 import DeapModel.Lemmas.C18Stats
+import DeapModel.Lemmas.C18Gen   -- helper lemmas of the translator tie (GenEq/C18.lean.tmpl), built by lake through this import
 
 set_option linter.unusedSectionVars false
 set_option linter.unusedSimpArgs false
